@@ -940,10 +940,10 @@ impl<T: Storage> Raft<T> {
         let mci = self.mut_prs().maximal_committed_index().0;
         if self.r.raft_log.maybe_commit(mci, self.r.term) {
             let (self_id, committed) = (self.id, self.raft_log.committed);
-            self.mut_prs()
-                .get_mut(self_id)
-                .unwrap()
-                .update_committed(committed);
+            // A leader that has removed itself is no longer tracked.
+            if let Some(pr) = self.mut_prs().get_mut(self_id) {
+                pr.update_committed(committed);
+            }
             return true;
         }
         false
@@ -1074,8 +1074,12 @@ impl<T: Storage> Raft<T> {
                 );
             }
             let self_id = self.id;
-            let pr = self.mut_prs().get_mut(self_id).unwrap();
-            if pr.maybe_update(index) && self.maybe_commit() && self.should_bcast_commit() {
+            // A leader that has removed itself is no longer tracked.
+            let updated = self
+                .mut_prs()
+                .get_mut(self_id)
+                .is_some_and(|pr| pr.maybe_update(index));
+            if updated && self.maybe_commit() && self.should_bcast_commit() {
                 self.bcast_append();
             }
         }
